@@ -302,7 +302,7 @@ func runC05(c *eng.Ctx) {
 				for j, rm := range rem {
 					total++
 					if fk == qT+".initDataPageIndex" {
-						base, k := eng.SplitConstAdd(qd.X)
+						base, k := eng.SplitConstOffset(qd.X)
 						isApp := eng.DependsOn(base, func(x ssa.Value) bool {
 							in, ok := x.(ssa.Instruction)
 							return ok && eng.LoadField(qT+".appendedSeq")(p, in)
